@@ -140,6 +140,7 @@ def boundary_cases(rng):
               ('not', ('raise', 'boomC')), ('all', [('const', 'kT', True), ('not', ('const', 'kF', False))])]
     import gen as _gen
     out += convprop.cases_from_pairs(_gen.raising_predicate_cases(rng), rng, 'raising-predicates')
+    out += convprop.cases_from_pairs(_gen.cond_on_converted_cases(rng), rng, 'conditions-on-converted-values')
     for cd in combos:
         term = ('cond', ('scalar', 'int'), cd)
         b = terms.build(term, rng)
